@@ -156,3 +156,7 @@ M("c18-override-saves-in-module-global", ["C18"], ("errors.py", "    global RAIS
 M("c18-restore-only-on-success", ["C18"], ("errors.py", "    try:\n        yield\n    finally:\n        RAISE_CONTROLLER_VALUE_ERRORS = old_raise_errors", "    try:\n        yield\n    except Exception:\n        raise\n    else:\n        RAISE_CONTROLLER_VALUE_ERRORS = old_raise_errors"))
 M("c20-gain-clamp-removed", ["C20"], ("modules/multictl.py", "    value = min(value, 32768)\n", ""))
 M("c20-dup-module-check-removed", ["C20"], ("modules/multictl.py", "        if len(mods) != len(set(mods)):", "        if False:"))
+
+# ---------------------------------------------------------------- reverts of later fixes
+M("revert-F14-multictl-mapping-beyond-controllers", ["C06"], ("modules/multictl.py", "            if mapping.controller > len(controllers):  # names a controller the target lacks\n                continue\n", ""))
+M("revert-F15-slot-conflicts-on-load", ["C05"], ("readers/sunvox.py", "                if out_link_idx == -1 or out_links[out_link_idx] not in (-1, mod.index):", "                if False:"))
